@@ -10,12 +10,16 @@ C15 driver.
     lim t=<base name>               numeric_limits of an integer type (modelled members only)
     rn n=<int> d=<int>              ratio<n,d>::num/den and ::type
     ra n1= d1= n2= d2=              ratio_add/subtract/multiply/divide and the six comparisons
+    inv f=<callable> fq=<0..5> a=<first argument|none> aq=<0..5> n=<trailing int arguments>
+                                    INVOKE: is_invocable, is_invocable_r<R>, invoke_result, invocable, regular_invocable,
+                                    predicate over the named zoo of Tetl/C15/Invoke.lean (fq, aq: const*3 + none/&/&&)
 
 A result is a blank-separated list of `name=value`; type values are printed with `CType.enc`.
 -/
 import Tetl.Proto
 import Tetl.C15.Model
 import Tetl.C15.Spec
+import Tetl.C15.Invoke
 namespace Tetl.C15.Driver
 open Tetl Tetl.Proto Tetl.C15 CType
 
@@ -193,6 +197,36 @@ def specRa (n1 d1 n2 d2 : Int) : String :=
     ++ [("equal", b2s (Spec.equal a b)), ("not_equal", b2s (!Spec.equal a b)), ("less", b2s (Spec.less a b)),
         ("less_equal", b2s (!Spec.less b a)), ("greater", b2s (Spec.less b a)), ("greater_equal", b2s (!Spec.less a b))])
 
+/-! ### INVOKE -/
+
+def rtys : List (String × Inv.RTy) :=
+  [("void", .void), ("int", .int), ("int&", .lint), ("int&&", .rint), ("int_const&", .clint)]
+
+def modelInv (f : Inv.Callable) (fq : Inv.TyQ) (a1 : Option Inv.Arg) (n : Nat) : String :=
+  items ([("is_invocable", b2s (Inv.Model.isInvocable f fq a1 n))]
+    ++ rtys.map (fun (s, r) => ("is_invocable_r<" ++ s ++ ">", b2s (Inv.Model.isInvocableR r f fq a1 n)))
+    ++ [("invoke_result", Inv.Res.enc (Inv.Model.invokeResult f fq a1 n)),
+        ("invocable", b2s (Inv.Model.invocable f fq a1 n)), ("regular_invocable", b2s (Inv.Model.regularInvocable f fq a1 n)),
+        ("predicate", b2s (Inv.Model.predicate f fq a1 n))])
+
+def specInv (f : Inv.Callable) (fq : Inv.TyQ) (a1 : Option Inv.Arg) (n : Nat) : String :=
+  items ([("is_invocable", b2s (Inv.Spec.isInvocable f fq a1 n))]
+    ++ rtys.map (fun (s, r) => ("is_invocable_r<" ++ s ++ ">", b2s (Inv.Spec.isInvocableR r f fq a1 n)))
+    ++ [("invoke_result", Inv.Res.enc (Inv.Spec.invoke f fq a1 n)),
+        ("invocable", b2s (Inv.Spec.isInvocable f fq a1 n)), ("regular_invocable", b2s (Inv.Spec.isInvocable f fq a1 n)),
+        ("predicate", b2s (Inv.Spec.predicate f fq a1 n))])
+
+def invLine (l : Line) : Option String := do
+  let f ← (l.str? "f").bind Inv.callableOf
+  let fq ← (l.nat? "fq").bind Inv.tyqOf
+  let n ← l.nat? "n"
+  let an ← l.str? "a"
+  let a1 ← (if an == "none" then some none else do
+    let b ← Inv.abaseOf an
+    let q ← (l.nat? "aq").bind Inv.tyqOf
+    some (some (Inv.Arg.mk b q)))
+  some (modelInv f fq a1 n ++ "\t" ++ specInv f fq a1 n)
+
 def step (_ : Unit) (l : Line) : Unit × String :=
   let out : String :=
     match l.op with
@@ -233,6 +267,7 @@ def step (_ : Unit) (l : Line) : Unit × String :=
       match l.int? "n1", l.int? "d1", l.int? "n2", l.int? "d2" with
       | some n1, some d1, some n2, some d2 => modelRa n1 d1 n2 d2 ++ "\t" ++ specRa n1 d1 n2 d2
       | _, _, _, _ => "bad-op\tbad-op"
+    | "inv" => (invLine l).getD "bad-op\tbad-op"
     | "misc" | "d" | "db" => "\t"        -- part (d): no model, etl is compared with std only
     | _ => "bad-op\tbad-op"
   ((), out)
